@@ -13,6 +13,8 @@ SLEN = 10
 
 def setup(ctx):
     hooks.RATE = 20
+    from . import history as H
+    H.PROBE_RATE = 0.4
 
 
 def ivl(kind, i=0):
@@ -61,7 +63,7 @@ def cases(rng, tier, shard, nshards):
         if rng.random() < 0.3:
             # arbitrary mutation histories (forward references, renames onto placeholders,
             # removals with cascades, re-additions): the collections are judged after every step
-            c = H.gen_history(rng, nsteps=rng.randint(3, 12), failing=0.1, fanout=True, tags=False)
+            c = H.gen_history(rng, nsteps=rng.randint(3, 12), failing=0.3, fanout=True, tags=False)
             c["k"] = "history"
             yield c
             continue
